@@ -11,28 +11,43 @@ systemctl/udevadm.
 
   C17.cli_unit        `totalmapper add_systemd_service (--default-layout N |
                       --layout-file F) [--exclude P]...` with argv as raw bytes;
-                      the installed /etc/systemd/system/totalmapper@.service must
-                      be, byte for byte, what the extracted Coq model says for
-                      exactly the user's pattern list, and the extracted
-                      c17_check (systemd's reading of ExecStart) must accept it
-                      (ocaml/escape_check.ml on CASE lines made from the files).
-  C15.cli_saved_file  the /etc/totalmapper.json of the same run, loaded by the
-                      real layout_loading::load_layout_from_file (tm-harness
-                      cli-load), must equal the layout the input denotes (the
-                      same function on F, or DEFAULT_LAYOUTS[N] -> parse ->
-                      convert).
-  C16.cli_excludes    `totalmapper remap --default-layout X --all-keyboards
-                      --verbose --exclude P...` (and list_keyboards, --dev-file
-                      --only-if-keyboard) over a fabricated /proc/bus/input/
-                      devices, /sys/devices, /dev/input (tm-harness listing-ns
-                      --real-bin); what the binary reports as selected/excluded
-                      must equal the extracted listing model's answer
-                      (ocaml/listing_check.ml ns).
+                      the unit the run installs (/etc/systemd/system/
+                      totalmapper@.service, or the one new *.service file there)
+                      must pass the escape engine's two extracted judgements for
+                      exactly the user's pattern list: text_class_ok (the one
+                      ExecStart= of [Service] ends, byte for byte, with the
+                      model's text from the exclude region on, after an intact
+                      prefix) and c17_check (systemd's reading of ExecStart
+                      yields --exclude <pattern> per pattern) (ocaml/
+                      escape_check.ml on CASE lines made from the files).  A run
+                      that installs no unit on an accepted argv is a hit.
+  C15.cli_saved_file  the layout file of the same run (the file the installed
+                      unit's --layout-file names; /etc/totalmapper.json), loaded
+                      by the real layout_loading::load_layout_from_file
+                      (tm-harness cli-load), must equal the layout the input
+                      denotes (the same function on F, or DEFAULT_LAYOUTS[N] ->
+                      parse -> convert).
+  C16.cli_excludes    `totalmapper remap --default-layout X --all-keyboards |
+                      --dev-file D... --only-if-keyboard | --auto-all-keyboards
+                      --verbose --exclude P...` (and list_keyboards) over a
+                      fabricated /proc/bus/input/devices, /sys/devices,
+                      /dev/input (tm-harness listing-ns --real-bin).  Judged by
+                      what the binary DOES: which fabricated nodes it opens
+                      (inotify; the loop opens the selected nodes in order and
+                      stops at the first failure, the auto mode opens them all),
+                      against the extracted listing model's selection
+                      (ocaml/listing_check.ml ns); every scenario is run once per
+                      entry of its device list, that entry rotated to the front,
+                      so that every device is the first candidate once.  The
+                      verbose log is a secondary observation: used only if, in
+                      the whole run, it always has the expected shape and agrees
+                      with the opens; otherwise counted and ignored.
   C16.cli_modes_agree on the same scenarios the three ways of naming devices —
-                      --all-keyboards, --dev-file <every node> --only-if-keyboard,
-                      --auto-all-keyboards (killed after its first round) — must
-                      list / exclude / select the same devices (the dev-file
-                      comparison under the guards of C16_selection_same).
+                      --all-keyboards, --dev-file <every node> --only-if-keyboard
+                      (both over the rotations), --auto-all-keyboards (killed once
+                      it sleeps after its first round) — must open the same set of
+                      nodes (the dev-file comparison under the guards of
+                      C16_selection_same).
 
 If `unshare -m true` fails the engine gives no verdict (ok, zero evaluations,
 stats say "skipped")."""
@@ -541,14 +556,14 @@ def judge_add(ctx, work, cases, escape_exe):
             hits.append({"engine": ENGINE, "clause": "C17.cli_unit", "known_class": None, "input": case_input(c),
                          "observed": {"unit_file": bytes.fromhex(m.group(4)).decode("utf-8", "backslashreplace")},
                          "expected": {"unit_file": bytes.fromhex(m.group(5)).decode("utf-8", "backslashreplace")},
-                         "note": "the installed unit file differs from the model's text for exactly the patterns given on the command line"})
+                         "note": "extracted text_class_ok is false on the installed unit: [Service] does not hold exactly one ExecStart= whose value ends, byte for byte, with the model's text from the exclude region on (for exactly the patterns of the command line) after an intact prefix"})
             continue
         m = re.match(r"MONITOR id=(\d+) tag=\S+ clause=(\S+) pats=(\S*) env=(\S+) observed=(.*?) text=(\S+)$", line)
         if m:
             c = by_id[m.group(1)]
             hits.append({"engine": ENGINE, "clause": "C17.cli_unit", "known_class": None, "input": dict(case_input(c), environment=m.group(4), instance="dev/input/event3"),
                          "observed": {"systemd_reads": m.group(5), "unit_file": bytes.fromhex(m.group(6)).decode("utf-8", "backslashreplace")},
-                         "expected": "argv = fixed arguments, then --exclude <pattern bytes> for each pattern of the command line in order, then --dev-file /dev/input/event3",
+                         "expected": "argv = a program and its options incl. --layout-file <path> and --only-if-keyboard, then --exclude <pattern bytes> for each pattern of the command line in order, then --dev-file /dev/input/event3",
                          "note": "extracted c17_check (systemd's reading of ExecStart) rejects the installed unit file"})
             continue
         if line.startswith("SUMMARY "):
